@@ -7,6 +7,7 @@ import random
 from vlib import Hit, Result, diff_lines, sh
 
 ASSUMPTIONS = [
+    'priority resolution: the step list of create_work/create_thread is regenerated (order, tested and assigned constants); the priority -> queue family map of local_priority_queue_scheduler::create_thread (placement_prio) is transcribed by hand and anchored by the source skeleton; the parent priority is the STORED one (boost parents are stored as normal)',
     'which OS thread a worker is, CPU binding (C15) and std::thread itself are outside the model: std_thread_scheduler is observed only (fresh OS thread, no pika task id)',
     'PU availability (states_[w]) is constant during a run: suspending/resuming processing units is C19; select_active_pu with no PU available is approximated',
     'curr_queue_ wrap at 2^64 and the int16 cast of worker numbers > 32767 are not modelled (hypothesis W <= 32767 in static_ok)',
@@ -256,6 +257,199 @@ def bulk_monitors(pools, ops, svs, fs):
     return hits, len(fs)
 
 
+# ---------------------------------------------------------------- priority resolution (Model/Priority.v, harness/c10_prio.cpp)
+def parse_prio(out):
+    pool, parents, children, ins, outs, done, other = None, {}, [], [], [], None, []
+    for ln in out.split('\n'):
+        p = ln.split(' ')
+        if ln.startswith('POOL A '):
+            d = dict(x.split('=', 1) for x in p[3:])
+            pool = {'policy': p[2], 'W': int(d['W']), 'H': int(d['H']), 'prio': int(d['prio']), 'steal': int(d['steal']),
+                    'poolnum': int(d['poolnum'])}
+        elif ln.startswith('PAR '):
+            d = dict(x.split('=', 1) for x in p[2:])
+            parents[int(p[1])] = d
+        elif ln.startswith('CH '):
+            d = dict(x.split('=', 1) for x in p[2:] if '=' in x)
+            d['id'] = int(p[1])
+            d['phases'] = [tuple(int(y) for y in x.split(':')) for x in d.get('ph', '').split(',') if x]
+            children.append(d)
+        elif ln.startswith('IN '):
+            ins.append(ln)
+        elif ln.startswith('OUT '):
+            outs.append(ln)
+        elif ln.startswith('DONE '):
+            done = ln
+        elif ln.strip() and '[pika]' not in ln:
+            other.append(ln)
+    return pool, parents, children, ins, outs, done, other
+
+
+def prio_monitors(pool, children, PV, PN):
+    """the property on the observations of c10_prio (no model): [(signature, detail)], #placements.
+    PV: name -> numeric thread_priority, PN: numeric -> name (from the enum in the source)"""
+    hits = []
+    nplace = 0
+    worker_os, os_worker = {}, {}
+    W, H = pool['W'], pool['H']
+    for c in children:
+        if c['done'] != '1':
+            continue
+        req, eff, hint = int(c['req']), int(c['eff']), int(c['hint'])
+        parent = None if c['pkind'] == 'X' else int(c['pobs'])
+        who = 'child %d (requested %s, hint %d, route %s) of %s on %s W=%d H=%d' % (
+            c['id'], PN.get(req, req), hint, 'create_thread' if c['route'] == '1' else 'create_work',
+            'a non-pika OS thread' if parent is None else 'a %s parent (pool %s)' % (PN.get(parent, parent), c['pkind']),
+            pool['policy'], W, H)
+        inherits = parent is not None and parent == PV['high_recursive']
+        # 1. the priority itself
+        if req != PV['default_']:
+            if eff != req:
+                hits.append(('C10:priority:explicit_not_kept', who + ' runs with priority %s' % PN.get(eff, eff)))
+        else:
+            exp = PV['high_recursive'] if inherits else PV['normal']
+            if eff != exp:
+                hits.append(('C10:priority:default_resolution', who + ' runs with priority %s, expected %s' % (PN.get(eff, eff), PN[exp])))
+        # 2. pool membership, worker identity
+        for (pl, lw, os_) in c['phases']:
+            nplace += 1
+            if pl != pool['poolnum']:
+                hits.append(('C10:pool:wrong_pool', who + ' ran on pool %d' % pl))
+                break
+            k = (pl, lw)
+            if worker_os.setdefault(k, os_) != os_ or os_worker.setdefault(os_, k) != k:
+                hits.append(('C10:worker:os_thread_mapping', 'worker %s seen on OS threads %s and %s' % (k, worker_os[k], os_)))
+        # 3. static policies: every phase on the worker the hint denotes for the REQUESTED class
+        if not pool['steal']:
+            if req == PV['normal'] or (req == PV['default_'] and not inherits):
+                exp, cls = hint, ('explicit_normal_child' if req == PV['normal'] else 'default_child')
+            elif req == PV['low']:
+                exp, cls = (None if pool['prio'] else hint), 'low_child'
+            else:
+                # high, or default_ under a high_recursive parent (high_recursive): high-priority queue hint mod H;
+                # with H < W that is another worker's queue - the documented behaviour behind the known finding
+                # boost_hp_queues, allowed here and not re-reported
+                exp, cls = ((hint % H) if pool['prio'] else hint), 'high_child'
+            if exp is not None:
+                for i, (pl, lw, os_) in enumerate(c['phases']):
+                    if lw != exp:
+                        hits.append(('C10:static_hint:wrong_worker:' + cls,
+                                     who + ': phase %d ran on worker %d, expected worker %d (phases on workers %s)'
+                                     % (i, lw, exp, [x[1] for x in c['phases']])))
+                        break
+    return hits, nplace
+
+
+def run_prio(ctx, r, drv, rng):
+    from genmods import c10 as gen_c10
+    order, PV = gen_c10.parse_enum()
+    PN = dict((v, k) for k, v in PV.items())
+    hp = ctx.build_harness('c10_prio', 'c10_prio.cpp')
+    cfgs = [('static-priority', 4, 1), ('static-priority', 4, 2), ('static-priority', 4, 4), ('static-priority', 3, 1),
+            ('static-priority', 2, 1), ('static', 3, 1), ('local-priority-fifo', 4, 2), ('abp-priority-fifo', 3, 1)]
+    if ctx.tier != 'quick':
+        cfgs = cfgs * 6 + [('static-priority', 3, 2), ('static-priority', 3, 3), ('static-priority', 2, 2), ('static', 4, 2),
+                           ('local-priority-lifo', 3, 1), ('local-priority-fifo', 2, 1)] * 4
+    all_in, all_out, cases = [], [], {}
+    pq_expect = {}
+    for (pol, W, H) in cfgs:
+        sd = rng.randrange(1, 1 << 30)
+        args = [hp, str(sd), pol, str(W), str(H)]
+        rc, out = sh(args, timeout=180)
+        pool, parents, children, ins, outs, done, other = parse_prio(out)
+        replay = {'harness': 'c10_prio', 'args': args[1:]}
+        if 'TIEFAIL' in out or pool is None:
+            r.hits.append(Hit('tie', 'C10:harness', 'c10_prio could not set up the pools: %s' % out[-400:], replay))
+            continue
+        if rc != 0 or done is None or 'completed=1' not in done:
+            r.hits.append(Hit('monitor', 'C10:priority:hang_or_crash',
+                              'runtime hung or crashed in c10_prio %s: rc=%d %s %s' % (args[1:], rc, done, ' | '.join(other)[-400:]), replay))
+        mh, nplace = prio_monitors(pool, children, PV, PN)
+        r.evaluations += nplace
+        seen = set()
+        for sig, detail in mh:
+            if sig in seen:
+                continue
+            seen.add(sig)
+            r.hits.append(Hit('monitor', sig, 'c10_prio %s: %s' % (' '.join(args[1:]), detail), dict(replay, pool=pool)))
+        r.count('mode=prio')
+        r.count('priopolicy=%s' % pol)
+        r.count('prioWH=%d/%d' % (W, H))
+        for c in children:
+            r.count('prioparent=%s' % ('ext' if c['pkind'] == 'X' else PN.get(int(c['pobs']), c['pobs'])))
+            r.count('prioreq=%s' % PN.get(int(c['req']), c['req']))
+        if not pool['steal'] and pool['prio'] and H < W and any(
+                c['pkind'] != 'X' and int(c['pobs']) == PV['high_recursive'] and int(c['req']) == PV['normal'] and int(c['hint']) >= H
+                for c in children if c['done'] == '1'):
+            r.nontrivial('prio %s %d %d %d' % (pol, W, H, sd))
+        all_in += ins
+        all_out += outs
+        tag = '%s-%d-%d-%d' % (pol, W, H, sd)
+        for c in children:
+            cid = '%s.%d' % (tag, c['id'])
+            cases[cid] = (args[1:], c, pool)
+            # queue prediction of the model for the static policies (first-phase worker = index of the queue)
+            if c['done'] == '1' and not pool['steal'] and c['phases']:
+                par = 'x' if c['pkind'] == 'X' else c['pobs']
+                all_in.append('IN PQ %s W=%d H=%d prio=%d parent=%s req=%s hint=%s' % (cid, W, H, pool['prio'], par, c['req'], c['hint']))
+                pq_expect[cid] = c['phases'][0][1]
+        if len(r.samples) < 4:
+            r.sample({'args': args[1:], 'pool': pool, 'children': len(children), 'first': (outs[0] if outs else '')})
+    rc2, mout = sh([drv], input='\n'.join(all_in) + '\n', timeout=600)
+    if rc2 != 0:
+        r.hits.append(Hit('tie', 'C10:driver', 'model driver failed on the priority cases rc=%d: %s' % (rc2, mout[-500:]), {}))
+    mouts = [x for x in mout.split('\n') if x.startswith('OUT PRIO ')]
+    # the property's monitor on the MODEL (its regenerated step list), over every (parent, requested, route) that was run
+    seenm = set()
+    for ln in mouts:
+        p = ln.split(' ')
+        if p[2] not in cases or not p[3].lstrip('-').isdigit():
+            continue
+        a, c, pool = cases[p[2]]
+        req, meff = int(c['req']), int(p[3])
+        parent = None if c['pkind'] == 'X' else int(c['pobs'])
+        desc = 'requested %s, parent %s, route %s' % (PN.get(req, req), 'none' if parent is None else PN.get(parent, parent),
+                                                     'create_thread' if c['route'] == '1' else 'create_work')
+        sig = None
+        if req != PV['default_'] and meff != req:
+            sig = 'C10:priority:model:explicit_not_kept'
+        elif req == PV['default_'] and meff != (PV['high_recursive'] if parent == PV['high_recursive'] else PV['normal']):
+            sig = 'C10:priority:model:default_resolution'
+        if sig and (sig, desc) not in seenm:
+            seenm.add((sig, desc))
+            r.hits.append(Hit('model', sig, 'resolve_priority of the regenerated step list gives %s for (%s)' % (PN.get(meff, meff), desc),
+                              {'harness': 'c10_prio', 'args': a, 'in': 'IN PRIO %s' % p[2], 'model': ln}))
+    diffs, ncmp = diff_lines(ctx, all_out, mouts)
+    r.traces += ncmp
+    for (k, a, b) in diffs[:10]:
+        a0, c, pool = cases.get(k[1], (None, {}, None))
+        r.hits.append(Hit('corr', 'C10:priority:correspondence',
+                          'stored priority of a new task differs from resolve_priority (case %s: parent %s requested %s route %s): impl [%s] model [%s]'
+                          % (k[1], c.get('pobs'), c.get('req'), c.get('route'), a[:200], b[:200]),
+                          {'harness': 'c10_prio', 'args': a0, 'impl': a, 'model': b}))
+    nq = 0
+    for ln in mout.split('\n'):
+        if not ln.startswith('OUT PQ '):
+            continue
+        p = ln.split(' ')
+        if p[2] not in pq_expect:
+            continue
+        q = p[3]
+        if q == 'L':
+            continue
+        nq += 1
+        idx = q.split(':')[1]
+        if not idx.isdigit() or int(idx) != pq_expect[p[2]]:
+            a0, c, pool = cases[p[2]]
+            if nq <= 400 and sum(1 for h in r.hits if h.signature == 'C10:priority:queue_correspondence') < 5:
+                r.hits.append(Hit('corr', 'C10:priority:queue_correspondence',
+                                  'first phase of child %s (parent %s requested %s hint %s) ran on worker %d, model queue %s'
+                                  % (p[2], c.get('pobs'), c.get('req'), c.get('hint'), pq_expect[p[2]], q),
+                                  {'harness': 'c10_prio', 'args': a0, 'model': ln}))
+    r.traces += nq
+    r.extra['priority_cases'] = {'processes': len(cfgs), 'children': len(cases), 'queue_predictions_compared': nq}
+
+
 def run(ctx):
     r = Result()
     r.rule = ('PROC/TRACE: each case starts the real runtime with a default pool and 1-2 resource-partitioner pools (policies and '
@@ -269,7 +463,12 @@ def run(ctx):
               'firstsuspsp: the same with a shared-priority default pool, where a wake-up carrying hint -1 used to crash the scheduler); '
               'bulk cases (harness/c10_bulk.cpp): bulk on pool A (two thirds static policies, W 1-5) after schedule/then/transfer_just/continues_on/bulk predecessors, '
               'hints and priorities, started from OS threads and tasks; every f(i) records the calling task_function (hook 1103), pool and worker; monitors + the extracted '
-              'acceptor bulk_allowed; non-trivial = a static bulk pool with at least one call from a spawned worker task')
+              'acceptor bulk_allowed; non-trivial = a static bulk pool with at least one call from a spawned worker task; '
+              'priority cases (harness/c10_prio.cpp): pool A (static-priority W 2-4 with H in {1,2,W} high-priority queues, static, two stealing priority policies) behind a default pool; '
+              'parents of every priority (low, normal, high, high_recursive, boost) on A, high_recursive/normal parents on the default pool and a non-pika OS thread submit children with requested '
+              'priority default_/normal/high/low x every hint x route create_work/create_thread, 3-4 phases each; monitors: explicit priority kept, default_ inherits only high_recursive, '
+              'static policy: explicit normal child on its hinted worker in every phase, high-priority class on worker hint mod H; stored priority compared with the extracted resolve_priority '
+              '(regenerated step order), first-phase worker compared with the extracted child_queue; non-trivial = static-priority with H < W, high_recursive parent, explicit normal child, hint >= H')
     ctx.build_pika()
     drv = ctx.build_model('C10', 'ExtractC10.v', 'drv_c10.ml')
     h = ctx.build_harness('c10_place', 'c10_place.cpp')
@@ -367,6 +566,7 @@ def run(ctx):
             inmap[(p[1], p[2])] = {'args': args[1:], 'in': x[:3000]}
         if ci < 1:
             r.sample({'args': args[1:], 'pools': pools, 'nops': len(ops), 'ncalls': len(fs), 'out': (outs[0][:400] if outs else '')})
+    run_prio(ctx, r, drv, rng)
     rc2, mout = sh([drv], input='\n'.join(all_in) + '\n', timeout=1800)
     mouts = [x for x in mout.split('\n') if x.startswith('OUT ')]
     notes = [x for x in mout.split('\n') if x.startswith('NOTE ')]
